@@ -983,4 +983,9 @@ def run(ctx):
     from rules import c07 as _c07m
     _c07m.rule_memory_blocks_writers(ctx, R="C01/memory-blocks-writers")
     _c07m.rule_list_after_producers(ctx, R="C01/memory-list-as-produced")
-
+    # the small accessors and pass-through wrappers the rules above look through by name return what their names say (rules/accessors.py)
+    from rules import accessors as _acc
+    _acc.rule_accessors(ctx, "C01")
+    # "no two objects overlap": every module record owns its name string and CodeView record (same rule instance as C08/identity-per-mapping)
+    from rules import c08 as _c08i
+    _c08i.rule_identity_per_mapping(ctx, R="C01/module-records-fresh")
